@@ -11,8 +11,8 @@
                                  duplicated per call site of the same package, those ending at the result controlled by
                                  the call-site parameter site *)
 From Coq Require Import List Bool Arith.
-From NM Require Import Engine EngineSpec MiniGo Flow Guard Contract.
-From NP Require Import EngineMain FlowProofs GuardProofs ContractProofs WholeProofs.
+From NM Require Import Engine EngineSpec MiniGo Flow Guard Contract Infer.
+From NP Require Import EngineMain FlowProofs GuardProofs ContractProofs WholeProofs InferSound.
 Import ListNotations.
 
 (* an accepted contract is true of every execution of the function, in any program *)
@@ -63,3 +63,30 @@ Example C20_infer_examples :
   infer_sem 16 fd_id = true /\ infer_sem 16 fd_guarded_new = true /\
   infer_sem 16 fd_loop_overwrite = false /\ infer_sem 16 fd_opaque_nil = false.
 Proof. exact infer_examples. Qed.
+
+(* ---- the inference algorithm itself (model M10 = transcription of functioncontracts/infer.go, tied to the code by a
+   two-directional correspondence on every run) ----
+   infer_checked F fuel = the transcribed inferContracts says contract(nonnil -> nonnil), every value of F is plain
+   (its nilness is read off the value or the table, without following operands), and the final state of the work
+   list passed the post-fixpoint check `stable` (evaluated by the correspondence suite on every function it sees).
+   reach F b e = an execution of the abstract SSA function F reaches block b with environment e (e v = true: v is
+   nil now), under nilaway's notion of nilness: see proofs/InferSound.v.
+   Then: whenever an execution returns r with a non-nil contracted parameter, r is non-nil. *)
+Theorem C20_inferred_contract_true : forall F fuel, infer_checked F fuel = true ->
+  forall b e r, reach F b e -> ib_ret (block F b) = Some r -> e (if_param F) = false -> e r = false.
+Proof. exact infer_checked_is_sound. Qed.
+Print Assumptions C20_inferred_contract_true.
+
+(* the inference accepts a guard and a guarded loop, and (since the repair of F45) not the function that returns nil
+   when two fresh allocations differ -- which the semantics can execute *)
+Example C20_infer_checked_examples :
+  infer_checked ex_guard 100 = true /\ infer ex_guard 100 = IInferred /\
+  infer_checked ex_loop 100 = true /\ infer ex_loop 100 = IInferred /\
+  infer_checked ex_distinct 100 = false /\ infer ex_distinct 100 = INotInferred.
+Proof. exact infer_checked_examples. Qed.
+Example C20_semantics_refutes_distinct :
+  exists b e r, reach ex_distinct b e /\ ib_ret (block ex_distinct b) = Some r /\ e (if_param ex_distinct) = false /\ e r = true.
+Proof. exact distinct_returns_nil. Qed.
+Example C20_theorem_not_vacuous :
+  exists b e r, reach ex_guard b e /\ ib_ret (block ex_guard b) = Some r /\ e (if_param ex_guard) = false.
+Proof. exact guard_reaches_return. Qed.
